@@ -122,6 +122,7 @@ package %s
 
 import (
 	"sync"
+	"sync/atomic"
 	"unsafe"
 )
 
@@ -217,6 +218,81 @@ func (m *simRWMutex) TryRLock() bool {
 	return m.real.TryRLock()
 }
 
+// simOnce replaces sync.Once.  A Once that was completed outside a run (through
+// the real one inside) counts as done.
+type simOnce struct{ real sync.Once }
+
+func (o *simOnce) Do(f func()) {
+	if atomic.LoadUint32((*uint32)(unsafe.Pointer(&o.real))) == 1 {
+		return
+	}
+	if h := SimSync; h != nil {
+		if handled, run := h(6, unsafe.Pointer(o)); handled {
+			if run {
+				defer h(7, unsafe.Pointer(o))
+				f()
+			}
+
+			return
+		}
+	}
+	o.real.Do(f)
+}
+
+// simOnceFunc, simOnceValue and simOnceValues replace sync.OnceFunc,
+// sync.OnceValue and sync.OnceValues (same behaviour, panics included: a
+// panic of f is repeated for every caller), built on simOnce.
+func simOnceFunc(f func()) func() {
+	var (
+		once  simOnce
+		valid bool
+		p     any
+	)
+	g := func() {
+		defer func() {
+			p = recover()
+			if !valid {
+				panic(p)
+			}
+		}()
+		f()
+		f = nil
+		valid = true
+	}
+
+	return func() {
+		once.Do(g)
+		if !valid {
+			panic(p)
+		}
+	}
+}
+
+func simOnceValue[T any](f func() T) func() T {
+	var result T
+	do := simOnceFunc(func() { result = f() })
+
+	return func() T {
+		do()
+
+		return result
+	}
+}
+
+func simOnceValues[T1, T2 any](f func() (T1, T2)) func() (T1, T2) {
+	var (
+		r1 T1
+		r2 T2
+	)
+	do := simOnceFunc(func() { r1, r2 = f() })
+
+	return func() (T1, T2) {
+		do()
+
+		return r1, r2
+	}
+}
+
 // RLocker returns a Locker for the read side, as sync.RWMutex does.
 func (m *simRWMutex) RLocker() sync.Locker { return (*simRLocker)(m) }
 
@@ -229,6 +305,8 @@ func (r *simRLocker) Unlock() { (*simRWMutex)(r).RUnlock() }
 var (
 	reMutex   = regexp.MustCompile(`\bsync\.Mutex\b`)
 	reRWMutex = regexp.MustCompile(`\bsync\.RWMutex\b`)
+	reOnce    = regexp.MustCompile(`\bsync\.Once\b`)
+	reOnceFn  = regexp.MustCompile(`\bsync\.Once(Func|Value|Values)\b`)
 	reSyncUse = regexp.MustCompile(`\bsync\.[A-Za-z]`)
 	reComment = regexp.MustCompile(`(?m)//.*$`)
 	reSyncImp = regexp.MustCompile(`(?m)^\s*"sync"\n`)
@@ -239,6 +317,8 @@ var (
 func useSimulatedMutexes(text string) string {
 	text = reMutex.ReplaceAllString(text, "simMutex")
 	text = reRWMutex.ReplaceAllString(text, "simRWMutex")
+	text = reOnce.ReplaceAllString(text, "simOnce")
+	text = reOnceFn.ReplaceAllString(text, "simOnce$1")
 	if !reSyncUse.MatchString(reComment.ReplaceAllString(text, "")) {
 		text = reSyncImp.ReplaceAllString(text, "")
 		text = strings.Replace(text, "import \"sync\"\n", "", 1)
@@ -257,7 +337,7 @@ func isSyncMutexType(e ast.Expr) bool {
 	}
 	id, ok := sel.X.(*ast.Ident)
 
-	return ok && id.Name == "sync" && (sel.Sel.Name == "Mutex" || sel.Sel.Name == "RWMutex")
+	return ok && id.Name == "sync" && (sel.Sel.Name == "Mutex" || sel.Sel.Name == "RWMutex" || sel.Sel.Name == "Once")
 }
 
 // simulatedNames returns the names of the struct fields and variables of the
@@ -452,6 +532,24 @@ func onceLike(call *ast.CallExpr) bool {
 	return false
 }
 
+// simReceiver reports whether call is a method call on a field or variable
+// whose type was replaced by a simulated one (a simulated Once may have yields
+// inside the function it runs).
+func (in *inserter) simReceiver(call *ast.CallExpr) bool {
+	sel, ok := call.Fun.(*ast.SelectorExpr)
+	if !ok {
+		return false
+	}
+	switch r := sel.X.(type) {
+	case *ast.Ident:
+		return in.simNames[r.Name]
+	case *ast.SelectorExpr:
+		return in.simNames[r.Sel.Name]
+	}
+
+	return false
+}
+
 func (in *inserter) list(stmts []ast.Stmt) []ast.Stmt {
 	var out []ast.Stmt
 	for i, s := range stmts {
@@ -490,7 +588,7 @@ func (in *inserter) block(b *ast.BlockStmt) {
 // exprs instruments function literals inside a statement.
 func (in *inserter) exprs(n ast.Node) {
 	ast.Inspect(n, func(x ast.Node) bool {
-		if call, ok := x.(*ast.CallExpr); ok && onceLike(call) {
+		if call, ok := x.(*ast.CallExpr); ok && onceLike(call) && !in.simReceiver(call) {
 			// Function literals among the arguments stay uninstrumented, and
 			// hand-placed plain hooks inside them are dropped.
 			for _, a := range call.Args {
